@@ -485,7 +485,7 @@ func (c *Ctx) SuccessRequiresCond(rule string, fn *ssa.Function, condName, re, w
 func CallsOfParam(fn *ssa.Function, name, param string) Ev {
 	ev := Ev{Name: name, Fn: fn}
 	for _, c := range callsIn(fn) {
-		if p, ok := c.Common().Value.(*ssa.Parameter); ok && p.Name() == param && !c.Common().IsInvoke() {
+		if p, ok := c.Common().Value.(*ssa.Parameter); ok && pname(p) == param && !c.Common().IsInvoke() {
 			ev.Ins = append(ev.Ins, c)
 		}
 	}
